@@ -3252,7 +3252,7 @@ Proof.
       { intros l0 l' o Hl Hl'. destruct l0 as [|l0], l' as [|l']; auto; simpl in *; try (destruct l0; discriminate); destruct l'; discriminate. }
       { intros l0 o Hl. destruct l0 as [|l0]; [|destruct l0; discriminate]. simpl in Hl.
         exact (eq_ind_r (fun n => o < n) (R2 i o Hl) B). }
-      { intros lx [<-|[]]. simpl. rewrite D2. auto. }
+      { intros lx [<-|[]]. simpl. exact (eq_ind_r (fun n => 0 < n) Nat.lt_0_1 D2). }
       { intros l0 o Hl. destruct l0 as [|l0]; [|destruct l0; discriminate]. simpl in Hl.
         destruct (nth i kept false) eqn:Ek.
         - specialize (HU i o Hi Ek Hl). rewrite Eu in HU. exact HU.
@@ -3310,7 +3310,7 @@ Proof.
   intros Hb. destruct (build_ok d l s v0 Hb) as (Hw & Hc & _).
   pose proof (wired_slinks d s Hw) as Hsl. pose proof (wired_sranges d s Hw) as Hsr.
   pose proof (coh_vshape d s v0 Hw Hc) as Hv0. pose proof (coh_synced d s v0 Hw Hc) as Hs0.
-  clear Hc. revert v0 Hb Hv0 Hs0. induction ops as [|o r IH]; intros v0 Hb Hv0 Hs0 Hall H; simpl in H.
+  clear Hc Hb. revert v0 Hv0 Hs0. induction ops as [|o r IH]; intros v0 Hv0 Hs0 Hall H; simpl in H.
   - inversion H; subst; auto.
   - destruct (apply_op s v0 o) as [[v1 n]|] eqn:E1; [|discriminate]. inversion Hall; subst.
     assert (Hv1 : vshape s v1) by (eapply apply_op_vshape; eauto).
@@ -3319,6 +3319,121 @@ Proof.
       - inversion E1; subst. apply synced_set_in_at; auto.
       - inversion E1; subst. apply synced_set_out_at; auto.
       - destruct (run s v0) as [[[v2 c2] p2]|] eqn:Er; [|discriminate]. inversion E1; subst.
-        eapply run_synced; eauto. }
+        exact (proj1 (run_synced s v0 v1 n p2 Hsl Hsr Hv0 Hs0 Er)). }
     apply (IH v1); auto.
+Qed.
+
+(* with no channel returned twice, EVERY output of every macro (any depth) is value-linked from the
+   channel its definition returns there *)
+Fixpoint out_links_complete (d : mdef) (s : snode) {struct d} : Prop :=
+  match d with MDef ps body rets _ =>
+    match s with
+    | SFn _ _ _ => False
+    | SMac _ _ _ _ kept uirecv sb _ _ =>
+        (forall o, o < List.length rets ->
+           match snd (nth o rets dret) with
+           | AParam i => nth i kept false = true /\ nth i uirecv None = Some o
+           | AOut j lo => nth lo (sb_orecv (nth j sb dsb)) None = Some o
+           | AConst _ => False
+           end) /\
+        all2 (fun st e => match s_mac st with None => True | Some d' => out_links_complete d' (sb_node e) end) body sb
+    end
+  end.
+
+Lemma wired_out_links d : forall s, wfd d = true -> rets_distinct d = true -> wired d s -> out_links_complete d s.
+Proof.
+  induction d as [ps body rets fl IH] using mdef_ind'. intros s Hwf Hrd Hw.
+  destruct s as [|l ps' ols recvs kept uirecv sb manual order]; [simpl in Hw; tauto|].
+  pose proof (wired_kids _ _ _ _ _ _ _ _ _ _ _ _ _ Hw) as [Hlen Hwk].
+  pose proof (fun j => kid_nouts _ _ _ _ _ _ _ _ _ _ _ _ _ j Hw) as Hkn.
+  destruct Hw as (-> & -> & HWL & _).
+  destruct HWL as (Hlr & Hlk & Hlu & Hcfg & Hui & Hrk & Hrb & Hrb' & Hpass & Hbody).
+  simpl in Hwf. apply andb_true_iff in Hwf as [_ Hwb].
+  destruct (wf_body_spec _ _ _ _ _ Hwb) as [Hst Hrets]. simpl in Hst, Hrets.
+  simpl in Hrd. apply andb_true_iff in Hrd as [Hrd Hrdn].
+  cbn [out_links_complete]. split.
+  - intros o Ho. pose proof (last_idx_nodup rets Hrd o 0 Ho) as Hlast. simpl in Hlast.
+    rewrite forallb_forall in Hrets. specialize (Hrets (nth o rets dret) (nth_In _ _ Ho)).
+    destruct (snd (nth o rets dret)) as [i|j lo|z]; simpl in Hrets; [| |discriminate].
+    + apply Nat.ltb_lt in Hrets. split; [apply Hpass; auto; congruence|rewrite Hui; auto].
+    + apply andb_true_iff in Hrets as [Hj Hl]. apply Nat.ltb_lt in Hj, Hl.
+      unfold body_nouts in Hj. rewrite map_length in Hj.
+      destruct (Hbody j Hj) as (_ & _ & _ & _ & Hor). rewrite <- (Hkn j Hj) in Hl. rewrite Hor; auto.
+  - apply (all2_nth _ dstmt dsb). split; auto. intros j Hj. specialize (Hwk j Hj).
+    destruct (s_mac (nth j body dstmt)) as [d'|] eqn:Em; auto.
+    destruct (Hst j Hj) as [_ Hm]. rewrite Em in Hm. fold (kid sb j).
+    apply (IH j d' Em); try tauto. eapply all_nested_nth; eauto.
+Qed.
+
+(* ================================================================================== *)
+(* R. the statements of Props/C09.v that need a line of glue, and the witnesses           *)
+Theorem interface_thm : forall d l s v, build d l = Some (s, v) ->
+  iface_ok d s /\ s_label_of s = l /\ v_ins v = map p_default (d_params d) /\
+  (forall o, nth o (v_outs v) None = None).
+Proof.
+  intros d l s v H. destruct (build_ok d l s v H) as (Hw & _ & Hl & Hi & Ho & _).
+  split; [now apply wired_iface|auto].
+Qed.
+
+Theorem closed_thm : forall d l s v, wfd d = true -> build d l = Some (s, v) -> closed s.
+Proof. intros d l s v Hwf H. destruct (build_ok d l s v H) as (Hw & _). now apply (wired_closed d). Qed.
+
+Theorem distinct_io_thm : forall s v r p k x,
+  (v_ins (set_in_at s v (r :: p) k x) = v_ins v /\ v_outs (set_in_at s v (r :: p) k x) = v_outs v) /\
+  (vget (fst (set_out_at s v [] k x)) (r :: p) = vget v (r :: p) /\ v_ins (fst (set_out_at s v [] k x)) = v_ins v) /\
+  v_ins (fst (set_out_at s v (r :: p) k x)) = v_ins v.
+Proof.
+  intros. split; [apply child_input_write_leaves_macro_io|].
+  split; [apply macro_output_write_leaves_children|apply child_output_write_leaves_macro_inputs].
+Qed.
+
+Theorem sync_down_thm : forall d l s v0 ops v k x,
+  build d l = Some (s, v0) -> apply_ops s v0 ops = Some v -> k < List.length (d_params d) ->
+  get_in (set_in s v k x) [] k = x /\
+  forall pk, In pk (down_chain s k) -> get_in (set_in s v k x) (fst pk) (snd pk) = x.
+Proof.
+  intros d l s v0 ops v k x Hb Hops Hk. destruct (build_ok d l s v0 Hb) as (Hw & Hc & _).
+  apply sync_down.
+  - now apply (wired_sranges d).
+  - apply (apply_ops_vshape s ops v0 v); auto. now apply (coh_vshape d).
+  - now rewrite (wired_nins d s Hw).
+Qed.
+
+Theorem sync_up_thm : forall d l s v0 ops v p lo x,
+  build d l = Some (s, v0) -> apply_ops s v0 ops = Some v ->
+  forall qo, In qo (fst (up_chain s p lo)) -> get_out (fst (set_out_at s v p lo x)) (fst qo) (snd qo) = x.
+Proof.
+  intros d l s v0 ops v p lo x Hb Hops. destruct (build_ok d l s v0 Hb) as (Hw & Hc & _).
+  apply sync_up.
+  - now apply (wired_sranges d).
+  - apply (apply_ops_vshape s ops v0 v); auto. now apply (coh_vshape d).
+Qed.
+
+Theorem links_complete_thm : forall d l s v,
+  wfd d = true -> rets_distinct d = true -> build d l = Some (s, v) -> out_links_complete d s.
+Proof. intros d l s v Hwf Hrd H. destruct (build_ok d l s v H) as (Hw & _). now apply wired_out_links. Qed.
+
+Open Scope string_scope.
+(* witnesses *)
+Definition dup_def : mdef :=
+  MDef [mkParam "x" (Some 1%Z) None] [mkStmt "c" None [AParam 0]] [("a", AOut 0 0); ("b", AOut 0 0)] FAuto.
+Definition one_def : mdef :=
+  MDef [mkParam "x" (Some 1%Z) None] [mkStmt "c" None [AParam 0]] [("o", AOut 0 0)] FAuto.
+Definition inner_def : mdef :=
+  MDef [mkParam "q0" None (Some HInt); mkParam "q1" (Some 2%Z) None]
+       [mkStmt "c0" None [AParam 0; AParam 1]; mkStmt "c1" None [AOut 0 0; AParam 0]]
+       [("r", AOut 1 0); ("q", AOut 0 0)] (FChain [0; 1]).
+Definition outer_def : mdef :=
+  MDef [mkParam "p0" None None; mkParam "p1" (Some 5%Z) (Some HInt); mkParam "p2" (Some 7%Z) None;
+        mkParam "p3" (Some 9%Z) None]
+       [mkStmt "c0" None [AParam 0]; mkStmt "c1" None [AParam 1; AParam 1];
+        mkStmt "c2" (Some inner_def) [AParam 1; AOut 0 0]; mkStmt "c3" None [AOut 2 1; AConst 4%Z]]
+       [("o0", AOut 3 0); ("o1", AParam 2); ("o2", AOut 2 0)] FAuto.
+
+Lemma hyps_hold_static : forall s v0, build outer_def "m" = Some (s, v0) ->
+  closed s /\ iface_ok outer_def s /\ synced s v0.
+Proof.
+  intros s v0 H. split; [apply (closed_thm outer_def "m" s v0); auto|].
+  split; [apply (interface_thm outer_def "m" s v0 H)|].
+  apply (sync_always outer_def "m" s v0 [] v0); auto.
 Qed.
